@@ -11,7 +11,10 @@ S->I: every input TLC enumerated is exported together with the transcription's o
       transcription's.
 I->S: seeded random larger inputs (3 LODs, 3 handler-whats, 2 tags + string top) run on the
       real code; checked against the relation in the driver and, as recorded input/output
-      pairs, by TLC against TableRelation (TableAssemblyTrace.tla)."""
+      pairs, by TLC against TableRelation (TableAssemblyTrace.tla).  handleGetTable itself is run
+      over a range that its LOD computation splits in two (stub loader in the cache) and its pages
+      are checked against the same relation."""
+import json
 from vlib import Infra
 
 WIDTHS = {"widths_2": "[7 2]", "widths_3": "[7 7 5]"}
@@ -64,6 +67,16 @@ def run(ctx):
     for s in res2.get("samples", [])[:2]:
         ctx.ev.sample(s)
     assumptions(ctx)
+    # 1b. endpoint level: handleGetTable (its own LOD split, two LODs across the 1m/1s table edge)
+    res3, out3, rc3 = ctx.go_test("internal/api", "TestVerifC25Endpoint", timeout=900)
+    res3 = ctx.need_result(res3, out3, rc3, "TestVerifC25Endpoint")
+    if res3["replayed"] != 10:
+        raise Infra("endpoint driver ran %s of 10 cases" % res3["replayed"])
+    ctx.replay_s2i_mismatches(res3, "endpoint")
+    ctx.ev.add_impl("handleGetTable pages over a two-LOD range checked against the relation", res3["replayed"],
+                    steps=res3["steps"])
+    for s in res3.get("samples", [])[:1]:
+        ctx.ev.sample(s)
     if ctx.violations:
         return          # the verdict is a violation already; the exhaustive part would only add time
     # 2. model checking of the transcription against the relation (+ export of every case)
@@ -77,9 +90,9 @@ def run(ctx):
     if th:
         runs += [("TableAssembly_mc_big.cfg", False,
                   {"keys": "2 times x 2 tags", "splits": 2, "widths": [7, 2], "limits": "0..3",
-                   "markers": "none + 8 at/between rows"}),
+                   "markers": "none + 4 between rows"}),
                  ("TableAssembly_lods_big.cfg", False,
-                  {"keys": "3 times x 1 tag", "splits": 4, "widths": [7, 7, 5], "limits": "0..3",
+                  {"keys": "3 times x 1 tag", "splits": 4, "widths": [7, 7, 5], "limits": "1..3",
                    "markers": "none + 2"})]
     for cfg, export, consts in runs:
         mc = ctx.tlc("TableAssemblyMC", cfg, timeout=6000 if th else 1500, keep_beh=export,
@@ -90,6 +103,32 @@ def run(ctx):
                 raise Infra("no cases exported by %s" % cfg)
             cases += mc.behaviours
     ctx.ev.set("exhaustive", True)
+    # 2b. the client protocol over the relation: paging walks partition the window
+    pg = ctx.tlc("TablePagingMC", "TablePaging_mc_big.cfg" if th else "TablePaging_mc.cfg", timeout=3000 if th else 900,
+                 constants={"keys": "2 times x 3 tags" if th else "2 times x 2 tags", "widths": [2] if th else [7, 2],
+                            "limits": "1..4" if th else "1..3"})
+    ctx.require_model_ok(pg, "TablePaging properties")
+    if th:
+        lv = ctx.tlc("TablePagingMC", "TablePaging_live.cfg", timeout=3000,
+                     constants={"keys": "2 times x 2 tags", "widths": [7, 2], "limits": "1..3", "property": "<>done under WF"})
+        ctx.require_model_ok(lv, "TablePaging termination")
+    seen, walks = set(), []
+    for b in pg.behaviours:      # ENABLED evaluations print a walk more than once
+        k = json.dumps(b, sort_keys=True)
+        if k not in seen:
+            seen.add(k)
+            walks.append(b)
+    if not walks:
+        raise Infra("no paging walks exported")
+    res4, out4, rc4 = ctx.go_test("internal/api", "TestVerifC25Paging", inp=walks, timeout=1500)
+    res4 = ctx.need_result(res4, out4, rc4, "TestVerifC25Paging")
+    if res4["replayed"] != 2 * len(walks):
+        raise Infra("paging driver replayed %d of %d walks" % (res4["replayed"], 2 * len(walks)))
+    ctx.replay_s2i_mismatches(res4, "paging")
+    ctx.ev.add_impl("TLC-enumerated paging walks replayed on getTableFromLODs (each over 2 LOD splits)",
+                    res4["replayed"], steps=res4["steps"])
+    for s in res4.get("samples", [])[:1]:
+        ctx.ev.sample(s)
     # 3. S->I: the enumerated inputs on the real code
     res, out, rc = ctx.go_test("internal/api", "TestVerifC25Enum", inp=cases, timeout=1500)
     res = ctx.need_result(res, out, rc, "TestVerifC25Enum")
@@ -110,8 +149,7 @@ TRACE_SIG = {"invariant:TrAligned": "columns", "invariant:TrUnique": "duplicate-
 def assumptions(ctx):
     ctx.ev.assume("storage contract: one group per time slot of the LOD, rows of a group sorted by tags in the "
                   "requested direction, a key at most once per query, LODs ascending and adjacent (as GetLODs "
-                  "produces them); handleGetTable's own reversal of the LOD list for fromEnd is outside the "
-                  "anchored function")
+                  "produces them)")
     ctx.ev.assume("tags are raw integers (no mapping storage), the string top is an unmapped string; a handler-what "
                   "serves 7 functions (tsValueCount), so 2/3 handler-whats are exercised with 9/19 functions")
     ctx.ev.assume("markers carry all group-by tags (as the markers returned by the endpoint do)")
